@@ -36,8 +36,49 @@ type actIn struct {
 	QT     *string `json:"qt,omitempty"`
 	QC     *string `json:"qc,omitempty"`
 	QN     *string `json:"qn,omitempty"`
-	Op     *opIn   `json:"op,omitempty"` // bystander command
+	Op     *opIn   `json:"op,omitempty"` // bystander command (k = op) or a visitor's command (k = vop, Op.Slot >= 1)
+	// a stream given as segments whose IDENTIFY bodies name LIVE identities (the addresses
+	// are only known at run time); when present it replaces Stream
+	Segs  []segIn     `json:"segs,omitempty"`
+	Extra [][2]string `json:"extra,omitempty"` // vop identify: extra JSON members (key, value template) of the body
+	IdTag string      `json:"id_tag,omitempty"` // key=value-kind label of the identity member, for the distribution table
 }
+
+// segIn: literal bytes, or one IDENTIFY command whose JSON body is a template.  The
+// placeholders are replaced when the stream is sent: @BY@ = the bystander's remote address
+// as nsqlookupd sees it (its registry id, public through /nodes, /lookup and /debug),
+// @VIS@ = the same of the visitor connection (of the bystander when there is none),
+// @SELF@ = of the connection the stream is sent on, @GONE@ = of the last hostile connection
+// that was closed.
+type segIn struct {
+	Raw   string `json:"raw_b64,omitempty"`
+	Ident string `json:"ident,omitempty"`
+}
+
+type liveAddrs struct{ by, vis, self, gone string }
+
+func (l liveAddrs) subst(t string) string {
+	return strings.NewReplacer("@BY@", l.by, "@VIS@", l.vis, "@SELF@", l.self, "@GONE@", l.gone).Replace(t)
+}
+
+func buildStream(a actIn, l liveAddrs) []byte {
+	if len(a.Segs) == 0 {
+		b, _ := base64.StdEncoding.DecodeString(a.Stream)
+		return b
+	}
+	var out []byte
+	for _, sg := range a.Segs {
+		if sg.Ident != "" {
+			out = append(out, identifyBytes([]byte(l.subst(sg.Ident)))...)
+			continue
+		}
+		b, _ := base64.StdEncoding.DecodeString(sg.Raw)
+		out = append(out, b...)
+	}
+	return out
+}
+
+func rawSeg(s string) segIn { return segIn{Raw: base64.StdEncoding.EncodeToString([]byte(s))} }
 
 type sessIn struct {
 	Profile string  `json:"profile"`
@@ -48,6 +89,8 @@ type sessIn struct {
 const byTopic = "by"
 const byChan = "ch"
 const byEph = "bce#ephemeral" // an ephemeral channel the bystander shares with hostile connections
+const visTopic = "vt"          // the visitor's own topic / channel (it also registers on the bystander's)
+const visChan = "vc"
 
 var byInfo = infoIn{"bystander", 4150, 4151, "1.3.0"}
 
@@ -56,6 +99,86 @@ type streamB struct {
 	buf    []byte
 	expect string
 	class  string
+	segs   []segIn // set instead of buf by the classes that name live identities
+	idTag  string
+}
+
+// ---- IDENTIFY bodies with members that collide with the identity nsqlookupd keeps for a
+// connection.  PeerInfo has the unexported id / lastUpdate and the exported RemoteAddress
+// (json "remote_address"), all of which the daemon must take from the socket, never from
+// the body: the id is the key of every registration of the connection, of UNREGISTER and of
+// the disconnect clean-up.  encoding/json matches keys case-insensitively.
+var identityKeys = []string{"remote_address", "REMOTE_ADDRESS", "Remote_Address", "RemoteAddress", "remoteaddress",
+	"id", "ID", "Id", "peer_id", "lastUpdate", "last_update", "LastUpdate", "hostname", "topology_zone"}
+var identityVals = []string{"@BY@", "@VIS@", "@SELF@", "@GONE@", "", "x:1", "bystander:4151"}
+
+func valKind(v string) string {
+	switch v {
+	case "@BY@":
+		return "bystander-id"
+	case "@VIS@":
+		return "visitor-id"
+	case "@SELF@":
+		return "own-id"
+	case "@GONE@":
+		return "closed-id"
+	case "":
+		return "empty"
+	}
+	return "other"
+}
+
+// identityBody: a complete IDENTIFY body of node [in] with the member key:value placed
+// first, last, or twice (first and last).
+func identityBody(in infoIn, key, val string, where int) string {
+	q := func(x string) string { b, _ := json.Marshal(x); return string(b) }
+	core := fmt.Sprintf(`"broadcast_address":%s,"hostname":%s,"tcp_port":%d,"http_port":%d,"version":%s`,
+		q(in.Baddr), q(in.Baddr), in.TCP, in.HTTP, q(in.Version))
+	m := q(key) + ":" + q(val)
+	switch where {
+	case 0:
+		return "{" + m + "," + core + "}"
+	case 1:
+		return "{" + core + "," + m + "}"
+	}
+	return "{" + m + "," + core + "," + m + "}"
+}
+
+// victimTails: what a connection that claims somebody's identity may try next; each ends
+// with EOF (the disconnect clean-up).
+var victimTails = []string{"", "UNREGISTER " + byTopic + " " + byChan + "\n", "UNREGISTER " + byTopic + "\n",
+	"UNREGISTER " + byTopic + " " + byEph + "\n", "REGISTER " + byTopic + " " + byChan + "\n", "REGISTER ht1 hc#ephemeral\n",
+	"PING\n", "UNREGISTER " + visTopic + " " + visChan + "\n", "UNREGISTER " + visTopic + "\n"}
+
+func genIdentityStream(r *lib.Rand) streamB {
+	var s streamB
+	in := nodePool[r.Intn(len(nodePool))]
+	if r.Chance(25) {
+		in = byInfo // the bystander's node string as well
+	}
+	key := identityKeys[r.Intn(len(identityKeys))]
+	val := identityVals[r.Intn(len(identityVals))]
+	if r.Chance(40) {
+		key, val = identityKeys[r.Intn(5)], identityVals[r.Intn(2)] // the decoded field, a live victim
+	}
+	s.idTag = key + "=" + valKind(val)
+	s.class = "identify-identity-member"
+	pre := "  V1"
+	if r.Chance(10) {
+		pre += "PING\n"
+	}
+	tail := ""
+	s.expect = "JSON"
+	for i, n := 0, r.Intn(4); i < n; i++ {
+		tail += victimTails[1+r.Intn(len(victimTails)-1)]
+		s.expect = "OK"
+	}
+	if r.Chance(20) {
+		tail += unknownCommands[r.Intn(len(unknownCommands))] + "\n" + "UNREGISTER " + byTopic + "\n"
+		s.expect = "E_INVALID"
+	}
+	s.segs = []segIn{rawSeg(pre), {Ident: identityBody(in, key, val, r.Intn(3))}, rawSeg(tail)}
+	return s
 }
 
 func be32(n uint32) []byte { var b [4]byte; binary.BigEndian.PutUint32(b[:], n); return b[:] }
@@ -112,8 +235,11 @@ func genStream(r *lib.Rand) streamB {
 		s.expect, s.class = "", "random-bytes"
 		return s
 	}
+	if kind < 24 {
+		return genIdentityStream(r)
+	}
 	puts("  V1")
-	if kind < 22 {
+	if kind < 32 {
 		// a well-formed visitor on the bystander's topic and its shared #ephemeral channel:
 		// registers, unregisters (or just leaves); the bystander's registration must survive
 		put(identifyBytes(goodIdentifyBody(r))...)
@@ -374,21 +500,73 @@ func genHTTP(r *lib.Rand) actIn {
 	return a
 }
 
+func connAct(st streamB) actIn {
+	a := actIn{K: "conn", Expect: st.expect, Class: st.class, Segs: st.segs, IdTag: st.idTag}
+	if len(st.segs) == 0 {
+		a.Stream = base64.StdEncoding.EncodeToString(st.buf)
+	}
+	return a
+}
+
+// the visitor: a second well-behaved producer connection (slot 1) that is open while
+// hostile streams arrive; its commands are judged like the bystander's and the views are
+// taken while it is still connected.  Its IDENTIFY body may carry identity members too.
+func visIdentify(r *lib.Rand) actIn {
+	in := nodePool[r.Intn(len(nodePool))]
+	a := actIn{K: "vop", Op: &opIn{K: "identify", Slot: 1, Info: &in}}
+	if r.Chance(50) {
+		key, val := identityKeys[r.Intn(len(identityKeys))], identityVals[r.Intn(len(identityVals))]
+		if r.Chance(50) {
+			key, val = identityKeys[r.Intn(5)], "@BY@"
+		}
+		a.Extra = [][2]string{{key, val}}
+		a.IdTag = key + "=" + valKind(val)
+	}
+	return a
+}
+
+func genVisitorOp(r *lib.Rand) actIn {
+	t := []string{byTopic, visTopic, "veph#ephemeral"}[r.Intn(3)]
+	c := []string{"", byChan, byEph, visChan}[r.Intn(4)]
+	switch w := r.Intn(100); {
+	case w < 30:
+		return actIn{K: "vop", Op: &opIn{K: "register", Slot: 1, T: t, C: c}}
+	case w < 60:
+		return actIn{K: "vop", Op: &opIn{K: "unregister", Slot: 1, T: t, C: c}}
+	case w < 72:
+		return actIn{K: "vop", Op: &opIn{K: "ping", Slot: 1}}
+	case w < 86:
+		return actIn{K: "vop", Op: &opIn{K: "disconnect", Slot: 1}}
+	}
+	return visIdentify(r) // on a fresh connection, or a refused second IDENTIFY
+}
+
 func genSession(r *lib.Rand, k int) sessIn {
 	s := sessIn{Profile: "hostile", Name: fmt.Sprintf("sess-%d", k)}
 	s.Acts = append(s.Acts,
 		actIn{K: "op", Op: &opIn{K: "identify", Info: &byInfo}},
 		actIn{K: "op", Op: &opIn{K: "register", T: byTopic, C: byChan}},
 		actIn{K: "op", Op: &opIn{K: "register", T: byTopic, C: byEph}})
+	visitor := r.Chance(60)
+	if visitor {
+		s.Acts = append(s.Acts, visIdentify(r),
+			actIn{K: "vop", Op: &opIn{K: "register", Slot: 1, T: visTopic, C: visChan}},
+			actIn{K: "vop", Op: &opIn{K: "register", Slot: 1, T: byTopic, C: []string{byChan, byEph, ""}[r.Intn(3)]}})
+	}
 	n := 10 + r.Intn(14)
 	for i := 0; i < n; i++ {
 		w := r.Intn(100)
 		switch {
 		case w < 52:
-			st := genStream(r)
-			s.Acts = append(s.Acts, actIn{K: "conn", Stream: base64.StdEncoding.EncodeToString(st.buf), Expect: st.expect, Class: st.class})
-		case w < 92:
+			s.Acts = append(s.Acts, connAct(genStream(r)))
+		case w < 88:
 			s.Acts = append(s.Acts, genHTTP(r))
+		case w < 92:
+			if visitor {
+				s.Acts = append(s.Acts, genVisitorOp(r))
+			} else {
+				s.Acts = append(s.Acts, genHTTP(r))
+			}
 		case w < 96:
 			s.Acts = append(s.Acts, actIn{K: "op", Op: &opIn{K: "ping"}})
 		default:
@@ -588,6 +766,20 @@ func runSession(s sessIn) lib.Case {
 	pm[by.addr] = 0
 	byOpen := true
 	next := 1
+	visitors := map[int]*conn{}
+	defer func() {
+		for _, v := range visitors {
+			v.c.Close()
+		}
+	}()
+	gone := "127.0.0.1:9"
+	live := func(self string) liveAddrs {
+		l := liveAddrs{by: by.addr, vis: by.addr, self: self, gone: gone}
+		if v := visitors[1]; v != nil {
+			l.vis = v.addr
+		}
+		return l
+	}
 	var acts []string
 	tagc := map[string]int{}
 	dead := false
@@ -630,16 +822,88 @@ func runSession(s sessIn) lib.Case {
 			action = "(IAOp " + opCoq + ")"
 			result = "(ROp " + coqOut(cl) + ")"
 			tagc["bystander:"+o.K+":"+cl]++
+		case "vop":
+			o := a.Op
+			if o.Slot < 1 {
+				lib.Fatalf("visitor command without a slot")
+			}
+			v := visitors[o.Slot]
+			if v == nil { // a fresh connection (also for a command that will be refused on it)
+				var err error
+				if v, err = dial(d.tcp, next, []byte("  V1")); err != nil {
+					lib.Fatalf("dial visitor: %v", err)
+				}
+				visitors[o.Slot] = v
+				pm[v.addr] = next
+				next++
+			}
+			var data []byte
+			var opCoq string
+			switch o.K {
+			case "identify":
+				body := "{"
+				for _, e := range a.Extra {
+					kb, _ := json.Marshal(e[0])
+					vb, _ := json.Marshal(live(v.addr).subst(e[1]))
+					body += string(kb) + ":" + string(vb) + ","
+				}
+				core, _ := json.Marshal(map[string]interface{}{"broadcast_address": o.Info.Baddr, "tcp_port": o.Info.TCP,
+					"http_port": o.Info.HTTP, "version": o.Info.Version})
+				body += string(core[1:])
+				var pi nsqlookupd.PeerInfo // what the real decoder makes of it goes to the model
+				if err := json.Unmarshal([]byte(body), &pi); err != nil {
+					lib.Fatalf("visitor IDENTIFY body %q does not decode: %v", body, err)
+				}
+				data = identifyBytes([]byte(body))
+				opCoq = fmt.Sprintf("(IIdentify %d %s %s %s %s)", v.peer, n.name(pi.BroadcastAddress), lib.CoqZ(int64(pi.TCPPort)),
+					lib.CoqZ(int64(pi.HTTPPort)), n.name(pi.Version))
+				if a.IdTag != "" {
+					tagc["visitor-identity-member="+a.IdTag]++
+				}
+			case "register":
+				data = []byte(strings.TrimRight("REGISTER "+o.T+" "+o.C, " ") + "\n")
+				opCoq = fmt.Sprintf("(IRegister %d %s %s)", v.peer, n.name(o.T), n.name(o.C))
+			case "unregister":
+				data = []byte(strings.TrimRight("UNREGISTER "+o.T+" "+o.C, " ") + "\n")
+				opCoq = fmt.Sprintf("(IUnregister %d %s %s)", v.peer, n.name(o.T), n.name(o.C))
+			case "ping":
+				data = []byte("PING\n")
+				opCoq = fmt.Sprintf("(IPing %d)", v.peer)
+			case "disconnect":
+				opCoq = fmt.Sprintf("(IDisconnect %d)", v.peer)
+			default:
+				lib.Fatalf("unknown visitor command %q", o.K)
+			}
+			cl := ""
+			if o.K == "disconnect" {
+				v.closeWait() // returns when the server has run its exit path and closed
+				gone = v.addr
+				delete(visitors, o.Slot)
+			} else {
+				f, closed := v.command(data)
+				cl = "NOANSWER"
+				if f != nil {
+					cl = frameClass(f)
+				}
+				if closed {
+					gone = v.addr
+					delete(visitors, o.Slot)
+				}
+			}
+			action = "(IAOp " + opCoq + ")"
+			result = "(ROp " + coqOut(cl) + ")"
+			tagc["visitor:"+o.K+":"+cl]++
 		case "conn":
-			stream, _ := base64.StdEncoding.DecodeString(a.Stream)
 			c, err := dial(d.tcp, next, nil)
 			if err != nil {
 				// the daemon no longer accepts: recorded as a dead daemon below
+				stream := buildStream(a, live("0.0.0.0:0"))
 				action = fmt.Sprintf("(IAConn %d [] %s)", next, lib.CoqBytes(stream))
 				result = "(RConn [])"
 				next++
 				break
 			}
+			stream := buildStream(a, live(c.addr))
 			pm[c.addr] = next
 			c.c.SetWriteDeadline(time.Now().Add(ioTimeout))
 			c.c.Write(stream)
@@ -664,6 +928,10 @@ func runSession(s sessIn) lib.Case {
 				last = frames[len(frames)-1]
 			}
 			tagc["stream="+a.Class+":"+last]++
+			if a.IdTag != "" {
+				tagc["identity-member="+a.IdTag]++
+			}
+			gone = c.addr
 			next++
 		case "http":
 			q := queryString(a.QT, a.QC, a.QN)
